@@ -246,9 +246,7 @@ class OptimizationHistory:
             return self.Solution(f_opt, x_opt, False, c_opt, c_opt_grad)
 
         # Case 2: the solution is feasible; we return it.
-        f_opt, x_opt = inf, array([])
-        c_opt = {}
-        c_opt_grad = {}
+        f_opt, i_opt = inf, None
         obj_name = self.objective_name
         for i, output_values in enumerate(feas_f):
             obj_value = output_values.get(obj_name)
@@ -260,13 +258,19 @@ class OptimizationHistory:
 
             if obj_value < f_opt:
                 f_opt = obj_value
-                x_opt = feas_x[i]
-                for constraint in constraints:
-                    c_name = constraint.name
-                    c_opt[c_name] = output_values.get(c_name)
-                    c_key = Database.get_gradient_name(c_name)
-                    c_opt_grad[constraint.name] = output_values.get(c_key)
+                i_opt = i
 
+        if i_opt is None:
+            # No feasible point has a comparable objective value (missing or NaN);
+            # we return the first feasible point with what is recorded for it.
+            i_opt = 0
+            f_opt = feas_f[i_opt].get(obj_name)
+
+        x_opt = feas_x[i_opt]
+        output_values = feas_f[i_opt]
+        func = Database.get_gradient_name
+        c_opt = {c.name: output_values.get(c.name) for c in constraints}
+        c_opt_grad = {c.name: output_values.get(func(c.name)) for c in constraints}
         if isinstance(f_opt, ndarray) and len(f_opt) == 1:
             f_opt = f_opt[0]
 
